@@ -5,6 +5,7 @@ import (
 	"go/ast"
 	"go/token"
 	"go/types"
+	"path/filepath"
 	"sort"
 	"strings"
 )
@@ -45,6 +46,7 @@ func (s *summary) equal(o *summary) bool {
 }
 
 var summaries = map[string]*summary{}
+
 // the library's named types and their declared methods (for resolving calls through interfaces)
 var typeMethods = map[string]map[string]*types.Func{}
 var implCache = map[string][]string{}
@@ -180,25 +182,25 @@ func funcKey(fn *types.Func) string {
 // ---- translation of one function ---------------------------------------------------------------
 
 type bodyTr struct {
-	p        *pkgInfo
-	fd       *ast.FuncDecl
-	fn       *types.Func
-	strict   bool
-	viewOK   bool
-	regOf    map[types.Object]int
-	regNames []string
-	paramReg []int // callee parameter index (receiver first for methods) -> register, -1 if it reaches no bytes
-	np       int
-	cur      *[]*node
-	untr     string
-	closures map[types.Object]*ast.FuncLit
-	tracked  map[types.Object]bool
-	ctx      []string
-	inClos   int
-	results  []*types.Var
-	resTrk   []bool
+	p           *pkgInfo
+	fd          *ast.FuncDecl
+	fn          *types.Func
+	strict      bool
+	viewOK      bool
+	regOf       map[types.Object]int
+	regNames    []string
+	paramReg    []int // callee parameter index (receiver first for methods) -> register, -1 if it reaches no bytes
+	np          int
+	cur         *[]*node
+	untr        string
+	closures    map[types.Object]*ast.FuncLit
+	tracked     map[types.Object]bool
+	ctx         []string
+	inClos      int
+	results     []*types.Var
+	resTrk      []bool
 	streamKeeps int
-	body     *node
+	body        *node
 }
 
 func (t *bodyTr) fail(format string, args ...interface{}) {
@@ -641,19 +643,30 @@ func (t *bodyTr) walk(e ast.Expr) {
 	})
 }
 
-// checkLit: a function literal that is not inlined must not touch byte variables of the function.
-func (t *bodyTr) checkLit(lit *ast.FuncLit) {
+// capturesBytes: does the literal use a byte-carrying variable declared outside of it?
+func capturesBytes(p *pkgInfo, lit *ast.FuncLit) bool {
 	bad := false
 	ast.Inspect(lit, func(n ast.Node) bool {
 		if id, ok := n.(*ast.Ident); ok {
-			if o, ok := t.p.info.ObjectOf(id).(*types.Var); ok && !o.IsField() && kindOf(o.Type()) != kNone {
-				bad = true
+			if o, ok := p.info.ObjectOf(id).(*types.Var); ok && !o.IsField() && kindOf(o.Type()) != kNone {
+				if o.Pkg() != nil && o.Parent() == o.Pkg().Scope() {
+					return true
+				}
+				if o.Pos() < lit.Pos() || o.Pos() > lit.End() {
+					bad = true
+				}
 			}
 		}
 		return true
 	})
-	if bad {
-		t.fail("function literal (line %d) uses byte-carrying variables", t.line(lit))
+	return bad
+}
+
+// checkLit: a function literal that is not inlined must not touch byte variables of the enclosing
+// function (a literal without such captures is translated as a function of its own).
+func (t *bodyTr) checkLit(lit *ast.FuncLit) {
+	if capturesBytes(t.p, lit) {
+		t.fail("function literal (line %d) uses byte-carrying variables of the enclosing function", t.line(lit))
 	}
 }
 
@@ -1028,6 +1041,13 @@ func (t *bodyTr) doCall(call *ast.CallExpr) []int {
 				bc = true
 			}
 		}
+		if _, isLit := fun.(*ast.FuncLit); !isLit && bc {
+			if csig, ok := t.typeOf(call.Fun).Underlying().(*types.Signature); ok {
+				if res, ok := t.dynamicCall(call, csig, rk); ok {
+					return res
+				}
+			}
+		}
 		if lit, ok := fun.(*ast.FuncLit); ok {
 			t.checkLit(lit)
 		} else {
@@ -1045,6 +1065,22 @@ func (t *bodyTr) doCall(call *ast.CallExpr) []int {
 	if sig == nil {
 		t.fail("callee without signature (line %d)", ln)
 		return out
+	}
+	if osig, ok := fn.Origin().Type().(*types.Signature); ok && isLibPkg(fn.Pkg()) && (osig.TypeParams().Len() > 0 || osig.RecvTypeParams().Len() > 0) {
+		if isig, ok := t.typeOf(call.Fun).(*types.Signature); ok {
+			same := isig.Params().Len() == osig.Params().Len() && isig.Results().Len() == osig.Results().Len()
+			for i := 0; same && i < isig.Params().Len(); i++ {
+				same = kindOf(isig.Params().At(i).Type()) == kindOf(osig.Params().At(i).Type())
+			}
+			for i := 0; same && i < isig.Results().Len(); i++ {
+				same = kindOf(isig.Results().At(i).Type()) == kindOf(osig.Results().At(i).Type())
+			}
+			if !same {
+				t.fail("generic callee %s instantiated with a byte-carrying type (line %d)", fn.Name(), ln)
+				return out
+			}
+			sig = osig
+		}
 	}
 	args := t.callArgs(call, sig, recv)
 	for i, k := range rk {
@@ -1279,3 +1315,231 @@ func hasRefKind(ks []bkind) bool {
 }
 
 func shortKey(k string) string { return strings.ReplaceAll(k, libPrefix+"/", "") }
+
+// ---- calls through function values ------------------------------------------------------------------
+
+// every named function or method that is used as a VALUE somewhere in the library (closed world: a
+// function-typed field or variable of the library can only hold one of these, or a function literal)
+var funcValues []*types.Func
+var funcLitSigs []*types.Signature
+
+type litDecl struct {
+	p   *pkgInfo
+	lit *ast.FuncLit
+	fn  *types.Func
+}
+
+var litDecls []litDecl
+
+func collectFuncValues(p *pkgInfo) {
+	for _, file := range p.files {
+		called := map[ast.Expr]bool{}
+		ast.Inspect(file, func(n ast.Node) bool {
+			switch n := n.(type) {
+			case *ast.CallExpr:
+				called[unparen(n.Fun)] = true
+			case *ast.FuncLit:
+				if !called[n] {
+					if sg, ok := p.info.Types[n].Type.(*types.Signature); ok {
+						if capturesBytes(p, n) {
+							funcLitSigs = append(funcLitSigs, sg)
+						} else {
+							pos := p.fset.Position(n.Pos())
+							name := fmt.Sprintf("func@%s:%d", filepath.Base(pos.Filename), pos.Line)
+							f := types.NewFunc(n.Pos(), p.pkg, name, sg)
+							funcValues = append(funcValues, f)
+							litDecls = append(litDecls, litDecl{p, n, f})
+						}
+					}
+				}
+			case *ast.SelectorExpr:
+				if called[n] {
+					return true
+				}
+				if sel, ok := p.info.Selections[n]; ok {
+					if sel.Kind() == types.MethodVal {
+						if f, ok := sel.Obj().(*types.Func); ok {
+							funcValues = append(funcValues, f)
+						}
+					}
+				} else if f, ok := p.info.Uses[n.Sel].(*types.Func); ok {
+					funcValues = append(funcValues, f)
+				}
+				return true
+			case *ast.Ident:
+				if called[n] {
+					return true
+				}
+				if f, ok := p.info.Uses[n].(*types.Func); ok {
+					funcValues = append(funcValues, f)
+				}
+			}
+			return true
+		})
+	}
+}
+
+// extAsSummary: the trusted table entry of an external callee in summary form
+func extAsSummary(fn *types.Func, eff extEff) *summary {
+	sig := fn.Type().(*types.Signature)
+	n := sig.Params().Len()
+	if sig.Recv() != nil {
+		n++
+	}
+	s := &summary{nparams: n, mut: make([]bool, n), keep: make([]bool, n), res: make([]resInfo, sig.Results().Len()), ifaceTr: true}
+	for _, w := range eff.writes {
+		if w < n {
+			s.mut[w] = true
+		}
+	}
+	for _, w := range eff.keeps {
+		if w < n {
+			s.keep[w] = true
+		}
+	}
+	for i := range s.res {
+		s.res[i].kind = kindOf(sig.Results().At(i).Type())
+		s.res[i].seen = true
+	}
+	if len(s.res) > 0 {
+		switch {
+		case eff.app >= 0 && eff.app < n:
+			s.mut[eff.app] = true
+			s.res[0].roots = 1 << uint(eff.app)
+		case eff.res == "opaque":
+			s.res[0].roots = opaqueBit
+		case eff.res == "any":
+			for i := 0; i < n && i < 62; i++ {
+				s.res[0].roots |= 1 << uint(i)
+			}
+		case eff.res == "" || eff.res == "fresh":
+		default:
+			var i int
+			fmt.Sscan(eff.res, &i)
+			s.res[0].roots = 1 << uint(i)
+		}
+	}
+	return s
+}
+
+func (t *bodyTr) dynamicCall(call *ast.CallExpr, csig *types.Signature, rk []bkind) ([]int, bool) {
+	ln := t.line(call)
+	for _, ls := range funcLitSigs {
+		if sigMatch(csig, ls, 0) {
+			return nil, false // a function literal may flow here
+		}
+	}
+	seen := map[string]bool{}
+	var sms []*summary
+	var shifts []int
+	for _, f := range funcValues {
+		fs, ok := f.Type().(*types.Signature)
+		if !ok || !sigMatch(csig, fs, 0) {
+			continue
+		}
+		k := funcKey(f)
+		if seen[k] {
+			continue
+		}
+		seen[k] = true
+		shift := 0
+		if fs.Recv() != nil {
+			shift = 1
+		}
+		if isLibPkg(f.Pkg()) {
+			s := summaries[k]
+			if s == nil {
+				continue // touches no byte memory
+			}
+			if s.untr != "" {
+				t.fail("calls through a function value that may be %s, which is untranslated", shortKey(k))
+				return nil, true
+			}
+			sms, shifts = append(sms, s), append(shifts, shift)
+		} else {
+			eff, ok := extLookup(f)
+			if !ok {
+				t.fail("calls through a function value that may be the unknown callee %s", f.FullName())
+				return nil, true
+			}
+			sms, shifts = append(sms, extAsSummary(f, eff)), append(shifts, shift)
+		}
+	}
+	if len(seen) == 0 {
+		return nil, false
+	}
+	t.walk(call.Fun)
+	args := t.callArgs(call, csig, nil)
+	out := make([]int, len(rk))
+	for i, k := range rk {
+		out[i] = -1
+		if k == kArr {
+			out[i] = t.tmpMake(call)
+		}
+	}
+	n := len(args)
+	mut, keep := make([]bool, n), make([]bool, n)
+	res := make([]resInfo, len(rk))
+	for j, s := range sms {
+		sh := shifts[j]
+		for i := 0; i < n && i+sh < len(s.mut); i++ {
+			mut[i] = mut[i] || s.mut[i+sh]
+			keep[i] = keep[i] || s.keep[i+sh]
+		}
+		for i := 0; i < len(rk) && i < len(s.res); i++ {
+			roots := s.res[i].roots
+			if sh == 1 {
+				r2 := roots & opaqueBit
+				if roots&1 != 0 {
+					r2 |= opaqueBit // a view of the bound receiver
+				}
+				r2 |= (roots &^ opaqueBit) >> 1
+				roots = r2
+			}
+			res[i].roots |= roots
+			res[i].seen = res[i].seen || s.res[i].seen
+			res[i].tracked = res[i].tracked || s.res[i].tracked
+		}
+	}
+	for i := 0; i < n; i++ {
+		for _, v := range args[i] {
+			if mut[i] {
+				t.emit(&node{op: "write", v: v, pos: -1, why: "mut", line: ln})
+			}
+			if keep[i] {
+				t.emit(&node{op: "escape", v: v, pos: -1, why: "ret", line: ln})
+			}
+		}
+	}
+	for i := range rk {
+		if rk[i] != kSlice && rk[i] != kObj {
+			continue
+		}
+		r := t.newReg("")
+		out[i] = r
+		roots := res[i].roots
+		switch {
+		case rk[i] == kObj && !res[i].tracked:
+			t.emit(&node{op: "opaque", r: r, pos: -1, line: ln})
+		case !res[i].seen || roots == 0:
+			t.emit(&node{op: "make", r: r, pos: -1, line: ln})
+		default:
+			var vs []int
+			opq := roots&opaqueBit != 0
+			for p := 0; p < n && p < 62; p++ {
+				if roots&(1<<uint(p)) != 0 {
+					if len(args[p]) == 0 {
+						opq = true
+					}
+					vs = append(vs, args[p]...)
+				}
+			}
+			if opq || len(vs) == 0 {
+				t.emit(&node{op: "opaque", r: r, pos: -1, line: ln})
+			} else {
+				t.emit(&node{op: "phi", r: r, vs: vs, pos: -1, line: ln})
+			}
+		}
+	}
+	return out, true
+}
